@@ -10,8 +10,8 @@ import time
 import collections
 
 ROOT = os.path.dirname(os.path.dirname(os.path.abspath(__file__)))
-EVIDENCE_DIR = os.path.join(ROOT, 'evidence')
-REPLAY_DIR = os.path.join(ROOT, 'replays')
+EVIDENCE_DIR = os.environ.get('VERIF_EVIDENCE_DIR') or os.path.join(ROOT, 'evidence')     # selftest runs write elsewhere
+REPLAY_DIR = os.environ.get('VERIF_REPLAY_DIR') or os.path.join(ROOT, 'replays')
 KNOWN_FINDINGS = os.path.join(ROOT, 'known_findings.json')
 NCPU = min(16, os.cpu_count() or 1)
 
